@@ -69,6 +69,12 @@ def c19_runs(tier, scale):
     return [("c19", [4 * scale], None)]
 
 
+def c02_runs(tier, scale):
+    if tier == "thorough":
+        return [("c02", [20000 * scale, 4 + (i % 3), 32], None) for i in range(16)]
+    return [("c02", [1200 * scale, 4, 4], None), ("c02", [600 * scale, 6, 4], None), ("c01", [800 * scale, 4], None)]
+
+
 PROPS = {
     "C01": {
         "lean_modules": ["AvroProofs.C01"],
@@ -228,5 +234,20 @@ PROPS = {
                                     "only get_or_init/set, one default) + the race sampling; namespace / field-name validators and the schemata comparator are "
                                     "covered by the translator instances only (not raced in the harness)"}],
         "assumptions": ["OnceLock atomicity"],
+    },
+    "C02": {
+        "lean_modules": ["AvroProofs.C02"],
+        "theorems": ["Avro.C02.long_eq_spec", "Avro.C02.encode_sound", "Avro.C02.decode_complete"],
+        "harness": c02_runs,
+        "projection": "okerr",
+        "nontrivial": complex_line,
+        "rule": "generated (schema, value) pairs; forward: the crate's bytes through an independent reference decoder written from the specification; "
+                "reverse: per value several random specification-legal layouts from the independent reference encoder (random block partitions of "
+                "arrays/maps, negative counts with byte sizes) through the real decoder and the model decoder; plus the byte-exact encode rows of C01",
+        "trusted_base": DATUM_TB + ["the harness's reference codec (refcodec.rs) is the 'independent implementation' of the property's statement"],
+        "partial": [{"theorem": "Avro.C02.encode_sound / decode_complete",
+                     "excluded_by": "PrimFacts hypothesis (closed facts about the modelled num-bigint / uuid-text primitives) for the uuid-string arm; non-canonical "
+                                    "(zero-padded) varints are not part of SpecEnc"}],
+        "assumptions": [],
     },
 }
